@@ -7,6 +7,13 @@ import subprocess
 VERIF = os.path.dirname(os.path.dirname(os.path.abspath(__file__)))
 
 CHECKS = {
+ "C08": ("fault_enumeration", "§4 C08",
+         "File-system effect seam on the main process with snapshot enumeration: every effect boundary of "
+         "every (selected) step and torn variants of every file flush give a crash state; each is "
+         "restarted and continued under the restart oracle; a seeded subset is crashed a second time; 5% "
+         "of the states are reproduced by a real os._exit kill and compared byte-for-byte.",
+         "crash = death of main with kernel-buffered data surviving; no power-loss or disk-error model.",
+         "deterministic simulation: crash-point enumeration at the file-system seam + seeded second-order crashes, restart-and-continue oracle"),
  "C01": ("exploration", "§4 C01",
          "Full simulated runs of the real scheduler on the lattice engine whose crossing probabilities are "
          "known exactly; scenario grid over move mixes, caps, worker counts, length-correlated completion "
@@ -81,7 +88,7 @@ NOT_APPLICABLE = {
  "C20": "algebraic symmetry laws over coordinates; no schedule, time or fault dimension (DESIGN.md §6)",
 }
 PENDING = {k: "check under construction (simulation layer not built yet); not claimed until it runs clean on the unchanged tree"
-           for k in ("C08", "C12", "C13")}
+           for k in ("C12", "C13")}
 
 
 def main():
